@@ -56,6 +56,28 @@ func workerRules(c *Ctx) {
 					}
 				}
 			}
+			if !ok {
+				// the same through the path condition (short-circuit forms joined in a boolean variable)
+				ok = true
+				for _, g := range []ssa.Instruction{goDo, goWait} {
+					got := P.PathCond(q.fn, nil, g, nil)
+					if len(got) == 0 {
+						ok = false
+					}
+					for _, cj := range got {
+						var st, dn bool
+						for f, set := range cj {
+							if strings.Contains(f, "eq?(+0 , ") && set == an.SZero {
+								st = st || strings.Contains(f, ".stop)")
+								dn = dn || strings.Contains(f, ".done)")
+							}
+						}
+						if !st || !dn {
+							ok = false
+						}
+					}
+				}
+			}
 			q.add("COND", "an instance (and its watcher) starts only when none exists", ok,
 				pickS(ok, "both go statements are reachable only through stop == nil and done == nil", "an instance can be started while one exists (stop/done non-nil): two instances of the function would run at once"), goDo)
 			q.add("PATH", "instance and watcher start together, once", goDo.Block() == goWait.Block() && !P.InCycle(goDo), "both go statements in one block, not in a loop", goDo)
